@@ -284,10 +284,68 @@ def locale_roundtrip(ctx):
                          f"preferred encoding {out.get('encoding')}: json_dump -> {nm} -> to_xml: {out.get(nm)}", {"klass": "locale", "md": md})
 
 
+def concurrent_dump_pass(ctx):
+    """One survey object dumped by several threads at once (a server that keeps parsed forms and serves their JSON), and dumped again after a dump
+    that was cut short: every dump is the complete one, equal to the dump of an equal survey taken alone."""
+    import sys
+    import threading
+    from pyxform.builder import create_survey_element_from_dict
+    from pyxform.xls2json import workbook_to_json
+    from pyxform.xls2json_backends import get_xlsform
+    rounds = 3 if ctx.tier == "quick" else 20
+    old = sys.getswitchinterval()
+    for rnd in range(rounds):
+        rng = ctx.rng("cdump", ctx.shard, rnd)
+        form = make_form(rng, 9000 + ctx.shard * 50 + rnd)
+        big = [{"name": f"c{k}", "label": f"Choice {k}", "grp": f"g{k % 7}"} for k in range(300)]
+        form.choices["biglist"] = big
+        form.survey.append(Row("q", "select_one biglist", f"bigsel{rnd}", {"label": "big"}))
+        form.survey.append(Row("q", "select_multiple biglist", f"bigsel2{rnd}", {"label": "big2"}))
+        try:
+            def build():
+                wb = get_xlsform(render.to_dict(form.to_sheets()))
+                return create_survey_element_from_dict(workbook_to_json(wb, warnings=[]))
+            ref = json.dumps(build().to_json_dict(), sort_keys=True)
+            sv = build()
+        except Exception:  # noqa: BLE001
+            ctx.ctr("concurrent_dump_form_rejected")
+            continue
+        res = {}
+        bar = threading.Barrier(4)
+
+        def work(k):
+            try:
+                bar.wait(timeout=30)
+            except threading.BrokenBarrierError:
+                pass
+            try:
+                res[k] = json.dumps(sv.to_json_dict(), sort_keys=True)
+            except Exception as e:  # noqa: BLE001
+                res[k] = f"raised {type(e).__name__}: {e}"
+        sys.setswitchinterval(1e-5)
+        try:
+            ts = [threading.Thread(target=work, args=(k,)) for k in range(4)]
+            for t_ in ts:
+                t_.start()
+            for t_ in ts:
+                t_.join(120)
+        finally:
+            sys.setswitchinterval(old)
+        res["afterwards"] = json.dumps(sv.to_json_dict(), sort_keys=True)
+        ctx.ctr("concurrent_dumps", 5)
+        ctx.case(sig=f"concurrent-dump|{ctx.shard}|{rnd}")
+        for k, v in res.items():
+            if v != ref:
+                ctx.viol("R2:dump-taken-beside-other-dumps-differs", f"dump {k} of one survey object ({len(v)} chars) differs from the dump of an equal survey taken alone ({len(ref)} chars)"
+                         + (f": {v[:120]}" if v.startswith("raised") else ""), common.witness(form, klass="concurrent-dump"))
+                break
+
+
 def run_shard(ctx):
     pl = plan(ctx.tier, ctx.seed)
     if ctx.shard == 0:
         locale_roundtrip(ctx)
+    concurrent_dump_pass(ctx)
     for i in range(pl["n"]):
         if not ctx.mine(i):
             continue
@@ -298,6 +356,9 @@ def run_shard(ctx):
 
 def replay(w):
     def chk(ctx, wit):
+        if wit.get("klass") == "concurrent-dump":
+            concurrent_dump_pass(ctx)
+            return
         if wit.get("klass") == "locale":
             locale_roundtrip(ctx)
             return
